@@ -112,7 +112,7 @@ theorem worker_reads_own_datagram (hc : Canonical spec cfg.prog) {c : K.Cache} {
     (hpc : w.pc = .decode :: rest ∨ w.pc = .marshal own :: rest ∨ w.pc = .mirrorCopy :: rest) :
     ∃ b d, w.msg = some b ∧ w.cur = some d ∧ s.mem b = d.bytes ∧ Event.received d ∈ s.log := by
   have h := reach_inv (spec := spec) hc hr
-  rcases h.wk i w hi with hhalt | ⟨a, hsim, hchk⟩
+  rcases h.wk i w hi with ⟨hhalt, _⟩ | ⟨a, hsim, hchk⟩
   · rw [hh] at hhalt; simp at hhalt
   have key : a.owns = true ∧ a.cur = true := by
     rcases hpc with e | e | e <;> rw [e] at hchk <;> simp only [check, Pipeline.trans] at hchk <;>
@@ -163,7 +163,7 @@ theorem enc_reset_before_use (hc : Canonical spec cfg.prog) {c : K.Cache} {mem0 
     (hi : s.workers[i]? = some w) (hh : w.halted = false) {rest : List Instr}
     (hpc : w.pc = .marshal true :: rest) : w.enc = [] := by
   have h := reach_inv (spec := spec) hc hr
-  rcases h.wk i w hi with hhalt | ⟨a, hsim, hchk⟩
+  rcases h.wk i w hi with ⟨hhalt, _⟩ | ⟨a, hsim, hchk⟩
   · rw [hh] at hhalt; simp at hhalt
   rw [hpc] at hchk
   simp only [check, Pipeline.trans] at hchk
